@@ -24,6 +24,35 @@ def misaligned(a: np.ndarray) -> np.ndarray:
     return v
 
 
+LAYOUTS = ("fortran", "colstride", "rowstride", "vecstride")
+
+
+def with_layout(X: np.ndarray, layout):
+    """(matrix view, query-row maker): the same packed bytes in another memory layout.
+    fortran: column-major; colstride: every second column of a twice as wide block; rowstride: every
+    second row of a twice as tall block; vecstride: the matrix stays contiguous, single rows handed over
+    as every second byte of a twice as long buffer"""
+    def contiguous_row(v):
+        return np.ascontiguousarray(v)
+    if layout == "fortran":
+        return np.asfortranarray(X), contiguous_row
+    if layout == "colstride":
+        wide = np.zeros((X.shape[0], 2 * X.shape[1]), dtype=np.uint8)
+        wide[:, ::2] = X
+        return wide[:, ::2], contiguous_row
+    if layout == "rowstride":
+        tall = np.zeros((2 * X.shape[0], X.shape[1]), dtype=np.uint8)
+        tall[::2] = X
+        return tall[::2], contiguous_row
+    if layout == "vecstride":
+        def strided_row(v):
+            buf = np.zeros(2 * v.size, dtype=np.uint8)
+            buf[::2] = v
+            return buf[::2]
+        return np.ascontiguousarray(X), strided_row
+    return X, contiguous_row
+
+
 def impl_obs(rows, nf, unaligned=False):
     import bblean
     import bblean.similarity as S
@@ -31,8 +60,12 @@ def impl_obs(rows, nf, unaligned=False):
     from bblean.utils import min_safe_uint
     A = np.array(rows, dtype=np.uint8).reshape(len(rows), nf)
     X = bblean.pack_fingerprints(A)
-    if unaligned:
+    qrow = None
+    if unaligned is True:
         X = misaligned(X)
+    elif isinstance(unaligned, str):
+        # another memory layout of the same bytes; rows used as the OTHER operand keep a different layout
+        X, qrow = with_layout(X, unaligned)
     back = bblean.unpack_fingerprints(X, nf)
     n = len(rows)
     ls = A.sum(axis=0, dtype=np.uint64)
@@ -43,7 +76,7 @@ def impl_obs(rows, nf, unaligned=False):
         "packed": [[int(b) for b in r] for r in X],
         "unpacked_ok": bool((back == A).all() and back.shape == A.shape),
         "popcounts": [int(v) for v in np.atleast_1d(P._popcount(X))],
-        "sims_vec": [float(v) for v in S._jt_sim_arr_vec_packed(X, X[0])],
+        "sims_vec": [float(v) for v in S._jt_sim_arr_vec_packed(X, X[0] if qrow is None else qrow(X[0]))],
         "matrix": [[float(v) for v in r] for r in S.jt_sim_matrix_packed(X)],
         "cvals": [int(v) for v in S.centroid_from_sum(ls, n, pack=False)],
         "cvals_narrow": [int(v) for v in S.centroid_from_sum(
@@ -63,7 +96,7 @@ def impl_obs(rows, nf, unaligned=False):
     for i in range(n):
         for j in range(n):
             if i != j:
-                v = float(S.jt_sim_packed(X[i], X[j]))
+                v = float(S.jt_sim_packed(X[i], X[j] if qrow is None else qrow(X[j])))
                 w = o["matrix"][i][j]
                 if not (v == w or (v != v and w != w)):
                     o["unpacked_ok"] = False
@@ -127,6 +160,15 @@ def gen_cases(seed, tier):
             else:
                 rows.append([1 if rng.random() < dens else 0 for _ in range(nf)])
         cases.append((rows, nf, rng.random() < 0.5))
+    # memory layouts: the same bytes column-major, column- / row-strided, or with a strided query row, at
+    # widths on both sides of the 8-byte word size (the operands of one call then have DIFFERENT layouts)
+    lrng = random.Random(seed + 77)
+    for k in range(24 if tier == "quick" else 400):
+        nf = lrng.choice([64, 64, 128, 192, 256, 8, 24, 40, 72, 100, 120, 2048])
+        nr = lrng.randint(2, 5)
+        dens = lrng.choice([0.1, 0.5, 0.9])
+        rows = [[1 if lrng.random() < dens else 0 for _ in range(nf)] for _ in range(nr)]
+        cases.append((rows, nf, LAYOUTS[k % len(LAYOUTS)]))
     return cases
 
 
